@@ -76,6 +76,7 @@ class StackCheck(Check):
         ref = RefFile(view_content(node, [l.getvalue() for l in leaves]), fixed, clamp=clamps(node)) if wf else None
         outs = []
         nontrivial = False
+        plain_chain = all(k in ('sub', 'cw', 'bio') for k in chain(node).split('/'))
         info = {'stack:' + chain(node): 1, 'wf:%s' % wf: 1}
         for op in ops:
             before = [l.getvalue() for l in leaves]
@@ -83,6 +84,12 @@ class StackCheck(Check):
             for l in leaves:
                 if hasattr(l, 'log'):
                     l.log.clear()
+            pos_real = None
+            if op[0] == 'w' and plain_chain:
+                try:
+                    pos_real = f.tell()
+                except Exception:  # noqa
+                    pass
             if op[0] == 'is':
                 # the file object the wrapper was given is moved by its owner (another wrapper on it, the caller): for a wrapper
                 # whose position IS the inner file's position (CBCFileIO) this is just another way of seeking
@@ -110,6 +117,13 @@ class StackCheck(Check):
                         errs.append(f'{op}: base access [{a},{b}) outside window [{lo},{hi})')
             if op[0] == 'r' and op[1] >= 0 and out.startswith('b:') and len(out) - 2 > 2 * op[1] and out != 'b:-':
                 errs.append(f'{op}: returned more than requested')
+            # "a write reports how many bytes it stored": whatever the shape of the stack (windows overhanging what they are windows
+            # of included), the bytes reported as stored are in the base file, at the place the position stood for
+            if op[0] == 'w' and plain_chain and pos_real is not None and out.startswith('n:') and int(out[2:]) > 0 and win:
+                n_rep = int(out[2:])
+                at = win[0] + pos_real
+                if n_rep > len(op[1]) or after[0][at:at + n_rep] != op[1][:n_rep]:
+                    errs.append(f'{op[0]} of {len(op[1])} bytes at {pos_real}: reported {n_rep} bytes stored, but they are not in the base file at {at}')
             if op[0] == 'q':
                 if not out.startswith('q:'):
                     errs.append(f'{op}: {out} (must answer without error)')
